@@ -449,7 +449,7 @@ def gen_opspec(rng):
             x[rng.choice(["data_size", "data_size", "tag_type"])] = rng.choice([4, 8, 40, 400, 0xC4, 0xC3])
             if "tag_type" in x and x["tag_type"] not in (0xC3, 0xC4):
                 x["tag_type"] = 0xC4
-        if rng.random() < 0.15:
+        if rng.random() < 0.15 and x.get("send_path") != "":
             t += "+%d" % rng.choice([0, 4, 8])
         return {"t": t, "x": x}
     if r < 0.60:      # writes
@@ -706,9 +706,14 @@ class C12(Suite):
             specs = [gen_opspec(rng) for _ in range(n)]
             for fragment in (False, True):
                 try:
-                    build_ops(specs, fragment)
+                    built = build_ops(specs, fragment)
                 except Exception:
                     continue        # a text that parse_operations refuses under this fragment setting
+                if fragment and any(op.get("send_path") == "" and op.get("method", "read" if "data" not in op else "write") == "read"
+                                    for op in built):
+                    # a bare Read Tag Fragmented (service 0x52, no Unconnected Send around it) is taken for an
+                    # Unconnected Send by the device and ends the session: not an operation "refused with a CIP status"
+                    continue
                 settings = list(SETTINGS)
                 if quick:
                     # all depth x multiple once per list, the entry point rotating; thorough: the full grid
